@@ -22,6 +22,7 @@ PANICKING = [
     ("bytes_mut::", "split_off", "&mut BytesMut"), ("bytes_mut::", "split_to", "&mut BytesMut"),
     ("bytes_mut::", "advance", "&mut BytesMut"), ("bytes_mut::", "advance_mut", "&mut BytesMut"),
     ("bytes_mut::", "truncate", "&mut BytesMut"), ("bytes_mut::", "set_len", "&mut BytesMut"),
+    ("bytes_mut::", "reserve_inner", "&mut BytesMut"),
 ]
 
 
